@@ -15,6 +15,7 @@ import (
 	"os"
 	"path/filepath"
 	"regexp"
+	"runtime"
 	"sort"
 	"strings"
 	"sync"
@@ -804,6 +805,13 @@ type policyWorkload struct {
 	Ticks   int `json:"vacuum_ticks"`
 }
 
+func markerOf(p *config.PoliciesData) string {
+	if p == nil || len(p.Config.Global.Remedies) == 0 {
+		return "?"
+	}
+	return p.Config.Global.Remedies[0].Name
+}
+
 func TestPolicyAccessorWorkload(t *testing.T) {
 	r := ev.New(t, "C18")
 	prev := http.DefaultTransport
@@ -814,7 +822,7 @@ func TestPolicyAccessorWorkload(t *testing.T) {
 			Workers: rapid.IntRange(2, 8).Draw(t, "workers"),
 			Lookups: rapid.IntRange(5, 60).Draw(t, "lookups"),
 			Reloads: rapid.IntRange(0, 4).Draw(t, "reloads"),
-			Ticks:   rapid.IntRange(1, 10).Draw(t, "ticks"),
+			Ticks:   rapid.IntRange(1, 14).Draw(t, "ticks"),
 		}
 		r.Case()
 		clk := vclock.New(time.Unix(1_700_000_000, 0))
@@ -832,44 +840,89 @@ func TestPolicyAccessorWorkload(t *testing.T) {
 		acc := config.NewTxnPoliciesAccessor(mk("v0"))
 		var wg sync.WaitGroup
 		gate := make(chan struct{})
+		stop := make(chan struct{})
 		var nilSeen atomic.Int64
+		var moved atomic.Value // first "a transaction's later look-up gave other policies" message
+		var relooked atomic.Int64
 		for g := 0; g < w.Workers; g++ {
 			g := g
 			wg.Add(1)
 			go func() {
 				defer wg.Done()
 				<-gate
-				for i := 0; i < w.Lookups; i++ {
+				type open struct {
+					id config.TxnID
+					p  *config.PoliciesData
+					t0 time.Time
+				}
+				pending := []open{}
+				for i := 0; ; i++ {
+					if i >= w.Lookups {
+						select {
+						case <-stop:
+							return
+						default:
+						}
+					}
 					id := config.TxnID(fmt.Sprintf("w%d-%d", g, i))
+					t0 := clk.Now()
 					a := acc.GetTxnPoliciesData(id)
 					b := acc.GetTxnPoliciesData(id)
 					if a == nil || b == nil {
 						nilSeen.Add(1)
 					}
+					pending = append(pending, open{id, a, t0})
+					// the response of an earlier transaction of this worker: while its request is less than the
+					// 30 s retention ago (measured generously: clock read after the look-up), it is handled with
+					// the policies its request was handled with
+					o := pending[(i*7)%len(pending)]
+					c := acc.GetTxnPoliciesData(o.id)
+					if age := clk.Now().Sub(o.t0); age < 30*time.Second {
+						relooked.Add(1)
+						if c != o.p {
+							moved.CompareAndSwap(nil, fmt.Sprintf("transaction %s: its later look-up, at most %v after its first one, gave other policies (%s instead of %s)", o.id, age, markerOf(c), markerOf(o.p)))
+						}
+					}
+					if len(pending) > 256 {
+						pending = pending[128:]
+					}
+					if i%8 == 7 {
+						runtime.Gosched()
+					}
 				}
 			}()
 		}
-		wg.Add(1)
-		go func() {
-			defer wg.Done()
-			<-gate
-			for k := 0; k < w.Reloads; k++ {
-				if err := acc.UpdatePoliciesData(mk(fmt.Sprintf("v%d", k+1)), false); err != nil {
+		close(gate)
+		// the swaps are spread over the ticks (a swap, then 5 s pass, ...), while the look-ups go on
+		done := 0
+		for k := 0; k < w.Ticks; k++ {
+			if done < w.Reloads && (w.Ticks-k <= w.Reloads-done || k%2 == 0) {
+				done++
+				if err := acc.UpdatePoliciesData(mk(fmt.Sprintf("v%d", done)), false); err != nil {
 					nilSeen.Add(1)
 				}
 			}
-		}()
-		close(gate)
-		for k := 0; k < w.Ticks; k++ {
 			clk.Advance(5 * time.Second) // fires the vacuum's Sleep timers while lookups are running
 			time.Sleep(200 * time.Microsecond)
 		}
+		for done < w.Reloads {
+			done++
+			if err := acc.UpdatePoliciesData(mk(fmt.Sprintf("v%d", done)), false); err != nil {
+				nilSeen.Add(1)
+			}
+		}
+		close(stop)
 		wg.Wait()
 		clk.Advance(40 * time.Second)
 		if nilSeen.Load() > 0 {
 			functionalTestFailure.Store(true)
 			t.Fatalf("%s", r.Fail(w, "%d lookups/reloads failed or returned no policies under concurrency", nilSeen.Load()))
 		}
+		if m := moved.Load(); m != nil {
+			functionalTestFailure.Store(true)
+			t.Fatalf("%s", r.Fail(w, "%v", m))
+		}
+		r.ClassN("later look-ups inside the retention", relooked.Load())
 		r.NonTrivial(ev.JSON(w), func() any { return w })
 	})
 }
